@@ -293,7 +293,7 @@ impl<'a> G<'a> {
         let clos_mark = self.closures.len();
         for _ in 0..n {
             let d = self.cfg.depth;
-            match self.p.below(18) {
+            match self.p.below(19) {
                 12 => {
                     // destructuring of an effectful tuple literal
                     let a = self.int(d);
@@ -326,6 +326,19 @@ impl<'a> G<'a> {
                 16 => {
                     let st = self.string(d);
                     s.push_str(&format!("{pad}string_println({st});\n"));
+                }
+                17 => {
+                    // rebinding of one name: closures created before capture the old value
+                    let e = self.int(d);
+                    s.push_str(&format!("{pad}let sh = {e};\n"));
+                    if !self.ints.iter().any(|x| x == "sh") {
+                        self.ints.push("sh".to_string());
+                    }
+                    if self.p.chance(1, 2) {
+                        let f = self.fresh("fs");
+                        s.push_str(&format!("{pad}let {f} = |q: int32| (q + sh);\n"));
+                        self.closures.push(f);
+                    }
                 }
                 15 if self.cfg.failing_ops => {
                     // division at another integer width whose result is discarded
